@@ -20,6 +20,7 @@
 -/
 import DiskfsModel.Proofs.Ext4Bitmap
 import DiskfsModel.Proofs.Ext4FileIO
+import DiskfsModel.Proofs.Ext4FileWrite
 import DiskfsModel.Proofs.Ext4DirPack
 import DiskfsModel.Proofs.Ext4Alloc
 namespace Diskfs.Ext4.C04
@@ -117,12 +118,84 @@ theorem cex_ext4_extent_skip_read :
     skipTrigger [⟨0, 10, 2⟩, ⟨2, 20, 1⟩] 1024 2500 = true := by
   refine ⟨⟨⟨rfl, by decide, rfl, by decide, trivial⟩, by decide⟩, by decide, by decide⟩
 
-/-- the code as found: the third 1500-byte append to that file (offset 3000, block 2) panics in Write -/
+/-- the skip test as found: the third 1500-byte append to that file (offset 3000, block 2) panics in Write -/
 theorem cex_ext4_extent_skip_write :
-    writeE true 1024 [⟨0, 10, 2⟩, ⟨2, 20, 1⟩] 3000 2600 [1, 2, 3] = .panic ∧
-    writeE false 1024 [⟨0, 10, 2⟩, ⟨2, 20, 1⟩] 3000 2600 [1, 2, 3] =
+    writeE true false 1024 [⟨0, 10, 2⟩, ⟨2, 20, 1⟩] 3000 2600 [1, 2, 3] = .panic ∧
+    writeE false false 1024 [⟨0, 10, 2⟩, ⟨2, 20, 1⟩] 3000 2600 [1, 2, 3] =
       .ok ⟨[(20 * 1024 + 552, [1, 2, 3])], 3, 2603, 3000⟩ := by
   refine ⟨by decide, by decide⟩
+
+/-! ### File.Write over the flat extent list -/
+
+/-- File.Write asks for more blocks exactly when the size after the write does not fit into the blocks the
+    extent list already has (then the allocator, not this core, decides) -/
+theorem writeE_needAlloc_iff (lt cum : Bool) (bs : Nat) (es : List Extent) (size off : Nat) (b : Bytes) (hbs : 0 < bs) :
+    writeE lt cum bs es size off b = .needAlloc ↔ blockCount es * bs < max size (off + b.length) := by
+  rw [writeE_eq]
+  have hceil := ceil_le_iff (max size (off + b.length)) bs (blockCount es) hbs
+  generalize max size (off + b.length) / bs + (if max size (off + b.length) % bs > 0 then 1 else 0) = cl at *
+  by_cases hN : cl > blockCount es
+  · simp only [hN, if_true, true_iff]; omega
+  · simp only [hN, if_false]
+    constructor
+    · intro hh; split at hh <;> cases hh
+    · intro hh; omega
+
+/-- writeE_spec: with the repaired loop, for every device content, block size, contiguous and disk-disjoint extent
+    list, file size, offset and buffer that fit into the allocated blocks, File.Write succeeds, reports the whole
+    buffer written, advances the offset by it, sets the size to max(size, off+len), issues no write at a negative
+    offset, and afterwards the byte string the extent list denotes is the old one with the buffer spliced in at
+    `off` — while every device byte outside the file's extents is unchanged (frame). Nothing is zero-filled:
+    bytes between the old end of file and `off` keep what the blocks held (finding ext4-hole-stale-bytes). -/
+theorem writeE_spec (dev : Dev) (bs : Nat) (es : List Extent) (size off : Nat) (b : Bytes)
+    (hbs : 0 < bs) (hc : Contig 0 es) (hd : DiskDisjoint es)
+    (hsz : size ≤ blockCount es * bs) (hfit : off + b.length ≤ blockCount es * bs) :
+    ∃ r, writeE false true bs es size off b = .ok r ∧
+      r.written = b.length ∧ r.off = off + b.length ∧ r.size = max size (off + b.length) ∧
+      (∀ w ∈ r.ws, 0 ≤ w.1) ∧
+      fileBytes (applyWrs dev (toWrs r.ws)) bs es = splice (fileBytes dev bs es) off b ∧
+      ∀ i, Outside bs es i → applyWrs dev (toWrs r.ws) i = dev i := by
+  have hceil := (ceil_le_iff (max size (off + b.length)) bs (blockCount es) hbs).2 (by omega)
+  rw [writeE_eq, if_neg (by omega)]
+  obtain ⟨ws', hr, hnn, hdev⟩ := writeLoop_spec bs off b hbs es 0 off 0 [] hc hd (by simp) (Nat.le_refl _)
+    (Or.inl ⟨rfl, rfl⟩) (Nat.zero_le _) (by simp; omega)
+  rw [hr]
+  obtain ⟨hF, hfr⟩ := hdev dev
+  simp only [List.nil_append, Nat.zero_mul, Nat.sub_zero, List.drop_zero] at hF
+  exact ⟨_, rfl, rfl, by simp, rfl, hnn, hF, hfr⟩
+
+/-- write_then_read: after that Write, File.Read at any offset and length returns the window of the spliced byte
+    string (clipped to the new size); in particular reading `len(b)` bytes at `off` returns exactly `b`. -/
+theorem write_then_read (dev : Dev) (bs : Nat) (es : List Extent) (size off : Nat) (b : Bytes)
+    (hbs : 0 < bs) (hc : Contig 0 es) (hd : DiskDisjoint es)
+    (hsz : size ≤ blockCount es * bs) (hfit : off + b.length ≤ blockCount es * bs) :
+    ∃ w, writeE false true bs es size off b = .ok w ∧
+      (∀ off' n, ∃ r, readE false (applyWrs dev (toWrs w.ws)) bs es w.size off' n = .ok r ∧
+        r.data = ((((splice (fileBytes dev bs es) off b).take w.size).drop off').take n)) ∧
+      (∃ r, readE false (applyWrs dev (toWrs w.ws)) bs es w.size off b.length = .ok r ∧ r.data = b) := by
+  obtain ⟨w, hw, _, _, hsize, _, hF, _⟩ := writeE_spec dev bs es size off b hbs hc hd hsz hfit
+  have hcov : ExtentsCover bs es w.size := ⟨hc, by rw [hsize]; omega⟩
+  have hFl := fileBytes_length dev bs es
+  refine ⟨w, hw, ?_, ?_⟩
+  · intro off' n
+    obtain ⟨r, hr, hdata, _⟩ := readE_spec (applyWrs dev (toWrs w.ws)) bs es w.size off' n hbs hcov
+    exact ⟨r, hr, by rw [hdata, hF]⟩
+  · obtain ⟨r, hr, hdata, _⟩ := readE_spec (applyWrs dev (toWrs w.ws)) bs es w.size off b.length hbs hcov
+    refine ⟨r, hr, ?_⟩
+    rw [hdata, hF]
+    exact splice_window _ off b w.size (by rw [hFl]; exact hfit) (by rw [hsize]; omega)
+
+/-- the write loop as found: a 4-byte write that crosses from the first into the second extent of a three-extent
+    file goes on to the third extent with an empty write at a negative device offset and fails, although every
+    byte had been written (finding ext4-write-trailing-empty-writes); the repaired loop stops in time. -/
+theorem cex_ext4_write_trailing :
+    Contig 0 [⟨0, 5, 1⟩, ⟨1, 7, 2⟩, ⟨3, 1, 1⟩] ∧ DiskDisjoint [⟨0, 5, 1⟩, ⟨1, 7, 2⟩, ⟨3, 1, 1⟩] ∧
+    trailTrigger [⟨0, 5, 1⟩, ⟨1, 7, 2⟩, ⟨3, 1, 1⟩] 4 2 4 = true ∧
+    writeE false false 4 [⟨0, 5, 1⟩, ⟨1, 7, 2⟩, ⟨3, 1, 1⟩] 16 2 [1, 2, 3, 4] =
+      .err ⟨[(22, [1, 2]), (28, [3, 4])], 4, 6, 16⟩ ∧
+    writeE false true 4 [⟨0, 5, 1⟩, ⟨1, 7, 2⟩, ⟨3, 1, 1⟩] 16 2 [1, 2, 3, 4] =
+      .ok ⟨[(22, [1, 2]), (28, [3, 4])], 4, 6, 16⟩ := by
+  refine ⟨⟨rfl, by decide, rfl, by decide, rfl, by decide, trivial⟩, by simp [DiskDisjoint], by decide, by decide, by decide⟩
 
 /-! ### allocation -/
 
@@ -171,6 +244,9 @@ theorem cex_ext4_long_name :
 /-! non-vacuity -/
 example : ExtentsCover 1024 [⟨0, 10, 2⟩, ⟨2, 20, 1⟩] 3000 :=
   ⟨⟨rfl, by decide, rfl, by decide, trivial⟩, by decide⟩
+example : Contig 0 [⟨0, 10, 2⟩, ⟨2, 20, 1⟩] ∧ DiskDisjoint [⟨0, 10, 2⟩, ⟨2, 20, 1⟩] ∧
+    3000 ≤ blockCount [⟨0, 10, 2⟩, ⟨2, 20, 1⟩] * 1024 ∧ 2600 + 3 ≤ blockCount [⟨0, 10, 2⟩, ⟨2, 20, 1⟩] * 1024 :=
+  ⟨⟨rfl, by decide, rfl, by decide, trivial⟩, by simp [DiskDisjoint], by decide, by decide⟩
 example : (readE false (fun i => UInt8.ofNat i) 4 [⟨0, 3, 1⟩, ⟨1, 7, 1⟩] 7 2 10) =
     .ok ⟨[14, 15, 28, 29, 30], [(14, 2), (28, 3)], 7, true⟩ := by decide
 
